@@ -388,6 +388,10 @@ def run(chk):
         c11.check_monomial(sub, v, "torusPolynomialMulByXai", "coefsT", False)
         c11.check_monomial(sub, v, "torusPolynomialMulByXaiMinusOne", "coefsT", True)
         c14.check_tlwe_monomial(sub, v)          # the (X^ai - 1) step of every CMux, on all k+1 components of the accumulator
+        # the gadget decomposition every external product of the blind rotation starts with (C12's rules, in this variant's path:
+        # C loops in the debug build, the AVX2 blocks in the optim build)
+        from rules import c12
+        c12.check_variant(c04._Sub(chk, "R4", skip={"R4", "R8"}), v)
         # ---------------- R5 a gate is a function of its arguments: no function-local static of the gates or of the code they
         # reach is initialised from run-time values (it would keep the value of the first call, e.g. the first key's parameters)
         from sa.symexec import run_function as _run, Hooks as _Hooks, flat as _flat
